@@ -356,7 +356,7 @@ func c08Gates(m *MClaims, c psatoken.IClaims, kp keyPair, st *Stats, extRuleBrok
 
 func TestC08_Gates(t *testing.T) {
 	st := NewStats("C08", "TestC08_Gates", "rapid: valid and invalid claims-sets of both profiles (C01's class-vector generator, as struct literals), and instances of a registered extension profile whose own Validate() rule is met or broken, through the seven validating entry points (SetClaims, ValidateAndEncode CBOR/JSON, ValidateAndSign, DecodeAndValidate CBOR/JSON(+deprecated alias)/COSE): each fails iff Validate() fails, emits/attaches nothing on failure, and equals its non-validating sibling on success. Non-trivial = invalid set whose defect is not merely a missing lifecycle; distinct = class vector")
-	st.Require = []string{"valid", "invalid", "gate=SetClaims", "gate=EncodeCBOR", "gate=EncodeJSON", "gate=ValidateAndSign", "gate=DecodeCBOR", "gate=DecodeJSON", "gate=DecodeCOSE", "invalid-encodable", "extension-profile", "extension-own-rule-broken", "impl=by-value", "impl=no-instance-id"}
+	st.Require = []string{"valid", "invalid", "gate=SetClaims", "gate=EncodeCBOR", "gate=EncodeJSON", "gate=ValidateAndSign", "gate=DecodeCBOR", "gate=DecodeJSON", "gate=DecodeCOSE", "invalid-encodable", "extension-profile", "extension-own-rule-broken", "impl=by-value", "impl=no-instance-id", "impl=sloppy-json", "impl=unregistered-extension"}
 	defer st.Flush(t)
 	registerMu.Lock()
 	defer registerMu.Unlock()
@@ -384,10 +384,32 @@ func TestC08_Gates(t *testing.T) {
 				return
 			}
 			var oc psatoken.IClaims
-			what := rapid.SampledFrom([]string{"by-value", "no-instance-id", "no-instance-id"}).Draw(t, "impl")
-			if what == "by-value" {
+			what := rapid.SampledFrom([]string{"by-value", "no-instance-id", "no-instance-id", "sloppy-json", "unregistered-extension"}).Draw(t, "impl")
+			switch what {
+			case "by-value":
 				oc = ByValueClaims{lit.(*psatoken.P2Claims)}
-			} else {
+			case "sloppy-json":
+				// valid JSON from the marshaler, but indented, unescaped and
+				// newline-terminated (the profile is not registered either)
+				n := newSloppyJSONClaims()
+				prof, canon := n.Profile, n.CanonicalProfile
+				n.P2Claims = *(lit.(*psatoken.P2Claims))
+				n.Profile, n.CanonicalProfile = prof, canon
+				if mm.VSI != nil {
+					v := "https://v.example/?a=1&b=<2>"
+					n.VSI = &v
+				}
+				oc = n
+			case "unregistered-extension":
+				// an extension profile that was never registered in this
+				// process (attester-only use)
+				es := extStyleByLabel("shadow-p2")
+				n := es.Impl.GetClaims().(*ShadowP2Claims)
+				prof, canon := n.Profile, n.CanonicalProfile
+				n.P2Claims = *(lit.(*psatoken.P2Claims))
+				n.Profile, n.CanonicalProfile = prof, canon
+				oc = n
+			default:
 				n := noInstIDProfile{}.GetClaims().(*NoInstIDClaims)
 				prof, canon := n.Profile, n.CanonicalProfile
 				n.P2Claims = *(lit.(*psatoken.P2Claims))
